@@ -87,6 +87,22 @@ def run(ck):
         pq = dict(pp, base=base, shutdown={"at": 100, "wait": wait, "repeat": 1})
         swept += _core.phase_tasks("stack", pq, [("client1", "sh"), ("client2", "sh")], range(1, 16),
                                    range(4, 40, 4 if quick else 1), facts={"nested": False, "base": base})
-    ck.run_and_validate(swept, TRACE, nontrivial=lambda t, r: True)
+    # bookkeeping of the tracked set at bytecode granularity: (a) an earlier future finishes (its done-callback leaves the
+    # set, on the worker's thread, without the executor's lock) at every point of another thread's submit(); (b) it
+    # finishes at every point of shutdown()'s snapshot and sweep.  The later futures must still be swept exactly once.
+    pa = {"base": "manual", "workers": 2, "layers": [{"t": "cos"}],
+          "subs": [{"S": 0, "script": ["V"], "dur": 100, "thread": 0}, {"S": 100, "script": ["V"], "dur": 700, "thread": 1}],
+          "shutdown": {"at": 300, "wait": False, "repeat": 1}, "horizon": 2500}
+    pb = {"base": "manual", "workers": 2, "layers": [{"t": "cos"}],
+          "subs": [{"S": 0, "script": ["V"], "dur": 300, "thread": 0}, {"S": 10, "script": ["V"], "dur": 900, "thread": 1},
+                   {"S": 20, "script": ["V"], "dur": 900, "thread": 2}],
+          "shutdown": {"at": 300, "wait": False, "repeat": 1}, "horizon": 2500}
+    fine = []
+    for n in range(1, 160, 3 if quick else 1):
+        for (prm, a, b, t0) in ((pa, "env1", "client1", 100), (pa, "client1", "env1", 100), (pb, "sh", "env1", 300),
+                                (pb, "env1", "sh", 300)):
+            fine.append({"scen": "stack", "params": prm, "strat": ["phases", [[a, n, t0], [b, 10000], [a, 10000]]],
+                         "gran": "instr", "facts": {"nested": False, "base": "manual", "directed": True}})
+    ck.run_and_validate(swept + fine, TRACE, nontrivial=lambda t, r: True)
     ck.assumptions += ["cancel() arrivals are observed on the futures the executor returned (instance-level wrapper)",
                        "one thread calls shutdown(); submitters race with it from other threads"]
